@@ -110,7 +110,7 @@ def main(argv=None):
     findings = load_findings()
     known, unknown = classify(prop, merged["violations"], findings)
     for fid, vs in sorted(known.items()):
-        f = next(x for x in findings if x["id"] == fid)
+        f = next(x for x in findings if x["id"] == fid and x.get("property") == prop and x.get("status") == "known")
         print(f"KNOWN-FINDING: property={prop} {f['what']} [{fid}; {len(vs)} witness(es) this run]")
     # one VIOLATION line per distinct monitor/mechanism, each with a replay file
     seen = set()
